@@ -22,7 +22,9 @@ RULE = (
     "G-copy: memref.copy between layout pairs (row-major / strided with permuted or padded strides and static or dynamic offset / "
     "tiled-strided with 1..3 tile levels, random nesting order, padding gaps, offsets, dynamic outermost bounds and steps), ranks 1..3, "
     "<=512 elements, i8..i64, static and dynamic shapes (runtime sizes multiples of the inner tile product); both layouts share tile "
-    "bounds. Non-trivial: layouts differ and >=2 DMA bursts executed; distinct by (rank, layout kinds, tile depths, dynamic flags, "
+    "bounds; 30 % of the modules hold a second copy of the same shape and element type with other layouts (swapped / to or from "
+    "row-major) in another function, before or after the judged one, so that nothing the pass remembers from one copy can leak "
+    "into the next unnoticed. Non-trivial: layouts differ and >=2 DMA bursts executed; distinct by (rank, layout kinds, tile depths, dynamic flags, "
     "number of loop levels emitted)."
 )
 ASSUMPTIONS = [
@@ -37,7 +39,7 @@ TIERS = {
     "thorough": {"shards": 16, "cases": 48000, "timeout": 7200},
 }
 FLOORS = {
-    "quick": {"programs": 1500, "elements_compared": 100000, "distinct_nontrivial": 150, "bursts_observed": 20000, "cases_with_loops": 200, "cases_dynamic": 200, "cases_offset": 200, "cases_unit-dims": 200},
+    "quick": {"programs": 1500, "elements_compared": 100000, "distinct_nontrivial": 150, "bursts_observed": 20000, "cases_with_loops": 200, "cases_dynamic": 200, "cases_offset": 200, "cases_unit-dims": 200, "cases_second_copy_in_module": 300},
     "thorough": {"programs": 40000, "elements_compared": 3000000, "distinct_nontrivial": 400},
 }
 
@@ -188,13 +190,31 @@ def gen_case(rng):
 def module_text(case):
     ts = type_text(case["shape"], set(case["dyn_dims"]), case["el"], case["src"])
     td = type_text(case["shape"], set(case["dyn_dims"]), case["el"], case["dst"])
-    return f"""builtin.module {{
-  func.func @main(%src: {ts}, %dst: {td}) {{
+    main = f"""  func.func @main(%src: {ts}, %dst: {td}) {{
     "memref.copy"(%src, %dst) : ({ts}, {td}) -> ()
     func.return
   }}
-}}
 """
+    before = after = ""
+    dec = case.get("decoy")
+    if dec:
+        # a second copy of the same shape and element type with other layouts, in another function of the same module: the pass
+        # rewrites both in one application, so whatever it remembers from one copy must not leak into the judged one
+        none = {"kind": "none"}
+        ds, dd = {"swapped": (case["dst"], case["src"]), "to-row-major": (case["src"], none), "from-row-major": (none, case["dst"]),
+                  "row-major": (none, none)}[dec["kind"]]
+        us = type_text(case["shape"], set(case["dyn_dims"]), case["el"], ds)
+        ud = type_text(case["shape"], set(case["dyn_dims"]), case["el"], dd)
+        f = f"""  func.func @decoy(%a: {us}, %b: {ud}) {{
+    "memref.copy"(%a, %b) : ({us}, {ud}) -> ()
+    func.return
+  }}
+"""
+        if dec["pos"] == "before":
+            before = f
+        else:
+            after = f
+    return "builtin.module {\n" + before + main + after + "}\n"
 
 
 _ctx = None
@@ -217,7 +237,7 @@ def run_case(case, res):
         R.reject(res, e)
         return out
     # reference layouts are instantiated from the *types the compiler sees* plus the runtime descriptor values
-    fargs = [op for op in m.walk() if op.name == "func.func"][0].body.blocks[0].args
+    fargs = [op for op in m.walk() if op.name == "func.func" and op.sym_name.data == "main"][0].body.blocks[0].args
     try:
         rs = from_memref_type(fargs[0].type, shape, case["src"].get("strides"), case["src"].get("offset", 0))
         rd = from_memref_type(fargs[1].type, shape, case["dst"].get("strides"), case["dst"].get("offset", 0))
@@ -246,6 +266,9 @@ def run_case(case, res):
         R.reject(res, "copy-left-unlowered")
         return out
     res["programs"] += 1
+    if case.get("decoy"):
+        R.bump(res, "cases_second_copy_in_module")
+        R.bump(res, "second_copy:" + case["decoy"]["kind"] + ":" + case["decoy"]["pos"])
     mach = DmaMachine(m, step_budget=400_000)
     # source memory: unique tags per (element, byte); everything else unmapped
     src_fp = set()
@@ -331,8 +354,11 @@ def attribute(v):
 def run_shard(seed, shard, n_cases, tier):
     res = R.new_result()
     rng = random.Random(seed)
+    rng_d = random.Random((seed << 4) ^ 0xDEC0)  # own stream: the judged copies stay what they were
     for i in range(n_cases):
         case = gen_case(rng)
+        if rng_d.random() < 0.3:
+            case["decoy"] = {"kind": rng_d.choice(["swapped", "swapped", "to-row-major", "from-row-major", "row-major"]), "pos": rng_d.choice(["before", "after"])}
         for v in run_case(case, res):
             R.violation(res, v["kind"], v["detail"], v["case"], attribute(v), info=v.get("info"))
         if i < 3 and shard == 0:
